@@ -163,6 +163,8 @@ Qed.
 
 Lemma held_finish th o : held (finish th o) = [] /\ token (finish th o) = 0.
 Proof. unfold finish. destruct (tl (t_ops th)); split; reflexivity. Qed.
+Lemma held_complete th : held (complete th) = [] /\ token (complete th) = 0.
+Proof. unfold complete. destruct (t_ops th) as [|[| | |] r]; try apply held_finish. split; reflexivity. Qed.
 Lemma held_at_pc th p : held (at_pc th p) = held (mkThread [] p false []) /\ token (at_pc th p) = token (mkThread [] p false []).
 Proof. split; reflexivity. Qed.
 
@@ -284,6 +286,8 @@ Ltac held_tac Hpc :=
   repeat match goal with
          | |- context[held (finish ?th ?o)] => rewrite (proj1 (held_finish th o))
          | |- context[token (finish ?th ?o)] => rewrite (proj2 (held_finish th o))
+         | |- context[held (complete ?th)] => rewrite (proj1 (held_complete th))
+         | |- context[token (complete ?th)] => rewrite (proj2 (held_complete th))
          end;
   unfold held, token; cbn [t_pc at_pc]; rewrite ?Hpc; auto.
 
@@ -297,7 +301,7 @@ Proof.
   destruct (t_pc th) eqn:Hpc.
   all: rewrite ?Hset.
   - (* PStart *)
-    destruct (t_ops th) as [|[| |] ops]; apply (inv_closed _ (s_closed st)); apply (inv_same_held st A th B); auto; held_tac Hpc.
+    destruct (t_ops th) as [|[| | |] ops]; apply (inv_closed _ (s_closed st)); apply (inv_same_held st A th B); auto; held_tac Hpc.
   - (* PGetCheck *)
     destruct (s_closed st); apply (inv_closed _ (s_closed st)); apply (inv_same_held st A th B); auto; held_tac Hpc.
   - (* PGetRead *)
@@ -398,6 +402,8 @@ Proof.
   { destruct (get_thread_in_or_idle st t) as [H|H]; [apply Hn; exact H|rewrite H; cbn; tauto]. }
   assert (Hfin : forall o, o <> 3 -> ~ In 3 (t_outs (finish (get_thread st t) o))).
   { intros o Ho Hin. rewrite finish_outs in Hin. apply in_app_or in Hin as [Hin|[Hin|[]]]; [exact (Hth Hin)|exact (Ho Hin)]. }
+  assert (Hcomp : ~ In 3 (t_outs (complete (get_thread st t)))).
+  { unfold complete. destruct (t_ops (get_thread st t)) as [|[| | |] r]; try (destruct (t_fail (get_thread st t)); apply Hfin; discriminate). exact Hth. }
   assert (Hat : forall p, ~ In 3 (t_outs (at_pc (get_thread st t) p))) by (intros p; exact Hth).
   assert (Hmk : forall p f, ~ In 3 (t_outs (mkThread (t_ops (get_thread st t)) p f (t_outs (get_thread st t))))) by (intros; exact Hth).
   unfold step. set (th := get_thread st t) in *.
@@ -409,7 +415,7 @@ Proof.
            | context[match ?e with _ => _ end] => destruct e; cbn [s_threads] in Hx
            | context[if ?e then _ else _] => destruct e; cbn [s_threads] in Hx
            end;
-    try (eapply Hgen; [|exact Hx]; first [apply Hat | apply Hmk | apply Hfin; discriminate | destruct (t_fail th); apply Hfin; discriminate]);
+    try (eapply Hgen; [|exact Hx]; first [apply Hat | apply Hmk | apply Hcomp | apply Hfin; discriminate | destruct (t_fail th); apply Hfin; discriminate]);
     try (apply Hn; exact Hx).
 Qed.
 
@@ -442,6 +448,14 @@ Qed.
 Lemma token_finish th o : token (finish th o) = 0.
 Proof. unfold finish. destruct (tl (t_ops th)); reflexivity. Qed.
 
+Lemma calm_complete th : calm th -> calm (complete th).
+Proof.
+  intros Hc. unfold complete. destruct (t_ops th) as [|[| | |] r] eqn:Ho; try (apply calm_finish; exact Hc).
+  destruct Hc as [Hc _]. split; [|reflexivity]. cbn [t_ops]. rewrite Ho in Hc. intros [H|H]; [discriminate|]. apply Hc. right. exact H.
+Qed.
+Lemma token_complete th : token (complete th) = 0.
+Proof. unfold complete. destruct (t_ops th) as [|[| | |] r]; try apply token_finish. reflexivity. Qed.
+
 Lemma forall_split_calm A th B th' : Forall calm (A ++ th :: B) -> calm th' -> Forall calm (A ++ th' :: B).
 Proof.
   intros H Hc. apply Forall_app in H as [HA HB]. apply Forall_cons_iff in HB as [_ HB].
@@ -465,7 +479,7 @@ Proof.
   assert (Hmk : forall p f, close_pc p = false -> calm (mkThread (t_ops th) p f (t_outs th))) by (intros p f Hp; destruct Hth as [Hc _]; split; assumption).
   destruct (t_pc th) eqn:Hpc; rewrite ?Hset; cbn [negb andb].
   - (* PStart *)
-    destruct (t_ops th) as [|[| |] ops] eqn:Hops.
+    destruct (t_ops th) as [|[| | |] ops] eqn:Hops.
     + constructor; cbn [s_closed s_threads s_q]; [reflexivity|apply (forall_split_calm A th B); [exact J2|apply Hat; reflexivity]|].
       intros Hb. rewrite tokens_split. specialize (Htok Hb). unfold token in *. rewrite Hpc in Htok. cbn [t_pc at_pc]. exact Htok.
     + constructor; cbn [s_closed s_threads s_q]; [reflexivity|apply (forall_split_calm A th B); [exact J2|apply Hmk; reflexivity]|].
@@ -473,6 +487,8 @@ Proof.
     + constructor; cbn [s_closed s_threads s_q]; [reflexivity|apply (forall_split_calm A th B); [exact J2|apply Hmk; reflexivity]|].
       intros Hb. rewrite tokens_split. specialize (Htok Hb). unfold token in *. rewrite Hpc in Htok. cbn [t_pc]. exact Htok.
     + exfalso. destruct Hth as [Hc _]. apply Hc. rewrite Hops. left. reflexivity.
+    + constructor; cbn [s_closed s_threads s_q]; [reflexivity|apply (forall_split_calm A th B); [exact J2|apply Hmk; reflexivity]|].
+      intros Hb. rewrite tokens_split. specialize (Htok Hb). unfold token in *. rewrite Hpc in Htok. cbn [t_pc]. exact Htok.
   - (* PGetCheck *)
     constructor; cbn [s_closed s_threads s_q]; [reflexivity|apply (forall_split_calm A th B); [exact J2|apply Hat; reflexivity]|].
     intros Hb. rewrite tokens_split. specialize (Htok Hb). unfold token in *. rewrite Hpc in Htok. cbn [t_pc at_pc]. exact Htok.
@@ -499,15 +515,15 @@ Proof.
     intros Hb. rewrite tokens_split. specialize (Htok Hb). unfold token in *. rewrite Hpc in Htok. cbn [t_pc at_pc]. exact Htok.
   - (* PPut *)
     destruct (Nat.ltb_spec (length (s_q st)) maxsize) as [Hroom|Hfull]; rewrite ?Hset.
-    + constructor; cbn [s_closed s_threads s_q]; [reflexivity|apply (forall_split_calm A th B); [exact J2|apply calm_finish; exact Hth]|].
-      intros Hb. rewrite tokens_split, token_finish. specialize (Htok Hb). unfold token in Htok. rewrite Hpc in Htok. cbn [length]. lia.
+    + constructor; cbn [s_closed s_threads s_q]; [reflexivity|apply (forall_split_calm A th B); [exact J2|apply calm_complete; exact Hth]|].
+      intros Hb. rewrite tokens_split, token_complete. specialize (Htok Hb). unfold token in Htok. rewrite Hpc in Htok. cbn [length]. lia.
     + destruct block eqn:Hblk.
       * (* a full queue cannot happen on a blocking pool whose slots are all accounted for *)
         exfalso. specialize (Htok eq_refl). unfold token in Htok. rewrite Hpc in Htok. lia.
       * constructor; cbn [s_closed s_threads s_q]; [reflexivity|apply (forall_split_calm A th B); [exact J2|apply Hat; reflexivity]|discriminate].
   - (* PWarn *)
-    constructor; cbn [s_closed s_threads s_q]; [reflexivity|apply (forall_split_calm A th B); [exact J2|apply calm_finish; exact Hth]|].
-    intros Hb. rewrite tokens_split, token_finish. specialize (Htok Hb). unfold token in Htok. rewrite Hpc in Htok. exact Htok.
+    constructor; cbn [s_closed s_threads s_q]; [reflexivity|apply (forall_split_calm A th B); [exact J2|apply calm_complete; exact Hth]|].
+    intros Hb. rewrite tokens_split, token_complete. specialize (Htok Hb). unfold token in Htok. rewrite Hpc in Htok. exact Htok.
   - destruct Hth as [_ Hc]. rewrite Hpc in Hc. discriminate.
   - destruct Hth as [_ Hc]. rewrite Hpc in Hc. discriminate.
   - destruct Hth as [_ Hc]. rewrite Hpc in Hc. discriminate.
